@@ -67,6 +67,9 @@ func (p *c05) Init(tier string) {
 		{"a": 10.0, "b": "x", "w": 1.0},
 		{"a": nil, "b": "y", "w": 1.0},
 		{"a": 2.0, "b": "x", "w": 1.0},
+		// negative numbers and fractions (their order is not the order of their bit patterns or texts)
+		{"a": -7.0, "b": "z", "w": 1.0},
+		{"a": -0.5, "b": "x", "w": 1.0},
 	}
 	maxRows := 3
 	if tier == "thorough" {
@@ -113,7 +116,7 @@ func (p *c05) sel(c *c05case) *Select {
 }
 
 func (p *c05) Describe(i int) any {
-	return map[string]any{"query": p.sel(&p.cases[i]).SQL(), "tables": fmt.Sprintf("all %d tables of <= %d rows over 5 archetypes (ties, NULL key)", len(p.tables), map[string]int{"quick": 3, "thorough": 5}[p.tier])}
+	return map[string]any{"query": p.sel(&p.cases[i]).SQL(), "tables": fmt.Sprintf("all %d tables of <= %d rows over 7 archetypes (ties, NULL key)", len(p.tables), map[string]int{"quick": 3, "thorough": 5}[p.tier])}
 }
 
 func keysString(ks []OrderKey) string {
@@ -355,7 +358,7 @@ func (p *c05) runDistinct(r *core.CaseResult, c *c05case, sql string) {
 
 func (p *c05) Meta() core.Meta {
 	return core.Meta{
-		Rule: "one case per (key list in {none, a, a DESC, b, b DESC, 5 two-key lists}, limit in {absent,0..5}, offset in {absent,0..5}, both LIMIT spellings, with/without WHERE) and (SELECT DISTINCT b with {no key, b, b DESC} x limit 0..3 x offset absent,0..3), run on every table of <= 3 (thorough 5) rows over 5 archetypes (ties on each key, a NULL key; NULL tables skipped for two-key lists); non-trivial = the expected window has > 1 row or selects 1 of several",
+		Rule: "one case per (key list in {none, a, a DESC, b, b DESC, 5 two-key lists}, limit in {absent,0..5}, offset in {absent,0..5}, both LIMIT spellings, with/without WHERE) and (SELECT DISTINCT b with {no key, b, b DESC} x limit 0..3 x offset absent,0..3), run on every table of <= 3 (thorough 5) rows over 7 archetypes (ties on each key, a NULL key; NULL tables skipped for two-key lists); non-trivial = the expected window has > 1 row or selects 1 of several",
 		Assumptions: []string{
 			"tie order is not fixed by the property: with ORDER BY the key tuples of the output are compared with those of the reference-sorted window, and the rows must be distinct source rows that passed WHERE",
 			"NULL placement is specified for a single sort key only",
